@@ -16,6 +16,10 @@ var nopGrouper = func(al AggregatedLabels, _ ...logql.Label) AggregatedLabels {
 	return al
 }
 
+var emptyGrouper = func(AggregatedLabels, ...logql.Label) AggregatedLabels {
+	return &emptyLabels{}
+}
+
 type rangeAggIterator struct {
 	iter iterators.Iterator[SampledEntry]
 
